@@ -27,6 +27,10 @@ enum Case {
     Aggregate { suite: String, n: u16, t: u16, k: usize, same_msg: bool, idkind: IdKind, package: usize, seed: String },
     /// every single-field substitution of an honest (package, share); signer-side refusals
     Substitutions { suite: String, n: u16, t: u16, k: usize, idkind: IdKind, seed: String },
+    /// the binding must cover EVERY byte of a long message and EVERY signer of a larger set:
+    /// 1000-byte messages differing in one byte at several offsets; 7 signers, each one's
+    /// commitments substituted
+    LongAndWide { suite: String, seed: String },
 }
 
 impl Prop for C05 {
@@ -73,6 +77,7 @@ impl Prop for C05 {
                     out.push(serde_json::to_value(Case::Substitutions { suite: suite.to_string(), n, t, k, idkind, seed: format!("s{seed}") }).unwrap());
                 }
             }
+            out.push(serde_json::to_value(Case::LongAndWide { suite: suite.to_string(), seed: format!("s{seed}") }).unwrap());
             // quick also runs the substitutions on a 3-signer set
             if tier == Tier::Quick {
                 out.push(serde_json::to_value(Case::Substitutions { suite: suite.to_string(), n: 4, t: 3, k: 3, idkind: IdKind::U16x, seed: format!("s{seed}") }).unwrap());
@@ -83,7 +88,7 @@ impl Prop for C05 {
     fn run(&self, case: &Value) -> Outcome {
         let c: Case = serde_json::from_value(case.clone()).expect("case");
         let suite = match &c {
-            Case::SignVerify { suite, .. } | Case::Aggregate { suite, .. } | Case::Substitutions { suite, .. } => suite.clone(),
+            Case::SignVerify { suite, .. } | Case::Aggregate { suite, .. } | Case::Substitutions { suite, .. } | Case::LongAndWide { suite, .. } => suite.clone(),
         };
         with_suite!(suite.as_str(), run_case, &c)
     }
@@ -277,6 +282,7 @@ fn run_case<C: Suite>(c: &Case) -> Outcome {
             o.class("aggregate");
         }
         Case::Substitutions { n, t, k, idkind, seed, .. } => substitutions::<C>(&mut o, &tag, *n, *t, *k, *idkind, seed),
+        Case::LongAndWide { seed, .. } => long_and_wide::<C>(&mut o, &tag, seed),
     }
     o
 }
@@ -518,4 +524,90 @@ fn substitutions<C: Suite>(o: &mut Outcome, tag: &str, n: u16, t: u16, k: usize,
     }
     o.count("traces", 1);
     o.class("substitutions");
+}
+
+
+fn long_and_wide<C: Suite>(o: &mut Outcome, tag: &str, seed: &str) {
+    let grp = match cached_group::<C>(KeySrc::Dealer, 8, 2, IdKind::U16x, seed) {
+        Ok(g) => g,
+        Err(e) => {
+            o.fail(format!("{tag}/setup"), e);
+            return;
+        }
+    };
+    let vk = *grp.pkp.verifying_key();
+    // ---- long message, two signers: one byte changed at several offsets ----
+    {
+        let s: Vec<_> = grp.ids.iter().take(2).copied().collect();
+        let base: Vec<u8> = (0..1000usize).map(|i| (i * 13 + 5) as u8).collect();
+        let Ok(sess) = run_session::<C>(&grp.kps, &s, &base, &format!("{seed}.long")) else {
+            o.fail(format!("{tag}/setup"), "long-message session failed".to_string());
+            return;
+        };
+        o.count("states", 1);
+        for off in [0usize, 1, 63, 64, 127, 128, 255, 256, 400, 415, 416, 417, 511, 512, 513, 767, 998, 999] {
+            let mut m2 = base.clone();
+            m2[off] ^= 1;
+            let np = SigningPackage::<C>::new(sess.comms.clone(), &m2);
+            o.eval(true);
+            o.count("transitions", 2);
+            for id in &s {
+                if fc::verify_signature_share(*id, &grp.pkp.verifying_shares()[id], &sess.shares[id], &np, &vk).is_ok() {
+                    o.fail(format!("{tag}/substitution-accepted/verify-share/long-message-byte"), format!("a share for a 1000-byte message is accepted for the message with byte {off} changed"));
+                } else {
+                    o.count("substitutions_rejected", 1);
+                }
+            }
+            if C::w_aggregate(&np, &sess.shares, &grp.pkp).is_ok() {
+                o.fail(format!("{tag}/substitution-accepted/aggregate/long-message-byte"), format!("byte {off} of a 1000-byte message changed"));
+            } else {
+                o.count("substitutions_rejected", 1);
+            }
+        }
+        // truncated / extended long message
+        for m2 in [base[..999].to_vec(), [base.clone(), vec![0]].concat(), base[..512].to_vec()] {
+            let np = SigningPackage::<C>::new(sess.comms.clone(), &m2);
+            o.eval(true);
+            o.count("transitions", 1);
+            if C::w_aggregate(&np, &sess.shares, &grp.pkp).is_ok() {
+                o.fail(format!("{tag}/substitution-accepted/aggregate/long-message-length"), format!("message length {} instead of 1000", m2.len()));
+            } else {
+                o.count("substitutions_rejected", 1);
+            }
+        }
+    }
+    // ---- seven signers: every signer's commitments substituted, shares of the OTHERS must be rejected ----
+    {
+        let s: Vec<_> = grp.ids.iter().take(7).copied().collect();
+        let m = b"wide session".to_vec();
+        let (Ok(sess), Ok(sess_b)) = (run_session::<C>(&grp.kps, &s, &m, &format!("{seed}.wide")), run_session::<C>(&grp.kps, &s, &m, &format!("{seed}.wideB"))) else {
+            o.fail(format!("{tag}/setup"), "wide session failed".to_string());
+            return;
+        };
+        o.count("states", 1);
+        for (j, jid) in s.iter().enumerate() {
+            for (what, nc) in [
+                ("hiding", SigningCommitments::new(*sess_b.comms[jid].hiding(), *sess.comms[jid].binding())),
+                ("binding", SigningCommitments::new(*sess.comms[jid].hiding(), *sess_b.comms[jid].binding())),
+            ] {
+                let mut cm = sess.comms.clone();
+                cm.insert(*jid, nc);
+                let np = SigningPackage::<C>::new(cm, &m);
+                for (i, id) in s.iter().enumerate() {
+                    if i == j {
+                        continue;
+                    }
+                    o.eval(true);
+                    o.count("transitions", 1);
+                    if fc::verify_signature_share(*id, &grp.pkp.verifying_shares()[id], &sess.shares[id], &np, &vk).is_ok() {
+                        o.fail(format!("{tag}/substitution-accepted/verify-share/wide-{what}-commitment"), format!("7 signers: {what} commitment of signer #{j} replaced, share of signer #{i} still verifies"));
+                    } else {
+                        o.count("substitutions_rejected", 1);
+                    }
+                }
+            }
+        }
+    }
+    o.count("traces", 1);
+    o.class("long-and-wide");
 }
